@@ -402,6 +402,119 @@ func runC16(cs *c16Case, scratch string, idx int, sr *run.ShardResult) (class, d
 		if c, d := afterCloseChecks(coll, nil); c != "" {
 			return c, d
 		}
+	case "round-completes-as-merger-starts-waiting":
+		// MaxDirtyOps tiny: the merger decides (under the lock) to wait for
+		// the persister's round; exactly between that decision and the wait
+		// itself a whole persister round completes.  The wake-up of that
+		// round must not be lost: writers and a synchronous notification
+		// issued afterwards return.
+		cfg := cs.Cfg
+		cfg.Backing = "custom"
+		cfg.MaxDirtyOps = 1
+		cfg.MaxDirtyKeyValBytes = 1
+		e := eng.NewExec(cfg, dir, true)
+		defer e.D.Detach()
+		if err := e.Open(); err != nil {
+			return "inconclusive", "open: " + err.Error()
+		}
+		coll := e.Coll
+		for _, k := range []string{"k0", "k1"} {
+			if err := execOne(coll, k); err != nil {
+				return "inconclusive", err.Error()
+			}
+			if maxPre < 2 {
+				break
+			}
+		}
+		if r := e.MergerCycle("plain", "merger.waitOutgoing"); r != eng.ResParkedMid || e.D.Parked("merger") != "merger.waitOutgoing" {
+			e.CloseAll()
+			return "inconclusive", fmt.Sprintf("merger did not reach its wait for the persister: %s at %q", r, e.D.Parked("merger"))
+		}
+		if r := e.PersisterRound(""); r != eng.ResEnd {
+			e.CloseAll()
+			return "inconclusive", "persister round: " + string(r)
+		}
+		unit("round-completed-inside-the-window")
+		e.D.DisarmAll() // everything runs free from here on
+		set := &callSet{}
+		set.goCall("writer", func() error {
+			for i := 0; i < maxPre+3; i++ {
+				if err := execOne(coll, fmt.Sprintf("w%d", i)); err != nil {
+					return err
+				}
+			}
+			return nil
+		})
+		set.goCall("NotifyMerger(sync)", func() error { return coll.(notifier).NotifyMerger("verif", true) })
+		if h, inc := set.waitAll(wd); h != "" {
+			return "hang/merger-missed-the-persister-wakeup", h
+		} else if inc != "" {
+			return "inconclusive", inc
+		}
+		set.mu.Lock()
+		for _, c := range set.calls {
+			if c.err != nil {
+				set.mu.Unlock()
+				return "call-error", fmt.Sprintf("%s returned %v", c.name, c.err)
+			}
+		}
+		set.mu.Unlock()
+		set2 := &callSet{}
+		set2.goCall("Close", func() error { return coll.Close() })
+		if h, inc := set2.waitAll(wd); h != "" {
+			return "hang/close", h
+		} else if inc != "" {
+			return "inconclusive", inc
+		}
+		if c, d := afterCloseChecks(coll, nil); c != "" {
+			return c, d
+		}
+	case "close-while-lower-keeps-failing":
+		// A lower level that returns an error from every update, promptly:
+		// Close must still return, after a bounded number of further
+		// attempts (counted in update calls, not in time), and must be final.
+		cfg := cs.Cfg
+		cfg.Backing = "custom"
+		e := eng.NewExec(cfg, dir, false)
+		defer e.D.Detach()
+		e.Lower = eng.NewLower(nil)
+		e.Lower.FailAlways = true
+		if err := e.Open(); err != nil {
+			return "inconclusive", "open: " + err.Error()
+		}
+		coll := e.Coll
+		if err := execOne(coll, "k0"); err != nil {
+			return "inconclusive", err.Error()
+		}
+		deadline := time.Now().Add(wd)
+		for e.Lower.Calls() < 3 {
+			if time.Now().After(deadline) {
+				e.CloseAll()
+				return "inconclusive", "watchdog: the failing lower level was not called 3 times"
+			}
+			time.Sleep(200 * time.Microsecond)
+		}
+		c0 := e.Lower.Calls()
+		set := &callSet{}
+		pc := set.goCall("Close", func() error { return coll.Close() })
+		for !pc.finished() {
+			if n := e.Lower.Calls() - c0; n > 100 {
+				return "close-not-final/lower-level-still-updated", fmt.Sprintf("Close has not returned although LowerLevelUpdate was called (and returned an error) %d more times since Close was issued", n)
+			}
+			if time.Now().After(deadline) {
+				return "inconclusive", "watchdog: Close pending, lower level not called either"
+			}
+			time.Sleep(100 * time.Microsecond)
+		}
+		unit(fmt.Sprintf("closed-after-<=%d-more-attempts", 1+(e.Lower.Calls()-c0)/4*4+3))
+		c1 := e.Lower.Calls()
+		time.Sleep(5 * time.Millisecond)
+		if c2 := e.Lower.Calls(); c2 > c1+1 {
+			return "close-not-final/lower-level-updated-after-close", fmt.Sprintf("LowerLevelUpdate called %d times after Close returned", c2-c1)
+		}
+		if c, d := afterCloseChecks(coll, nil); c != "" {
+			return c, d
+		}
 	case "notify-racing-close":
 		// synchronous notifications racing Close, and issued after Close
 		e := eng.NewExec(cs.Cfg, dir, false)
@@ -799,7 +912,8 @@ func collClosed(c moss.Collection) bool {
 }
 
 var c16Scenarios = []string{"backpressure-close", "backpressure-release", "close-during-update", "close-merger-waitoutgoing",
-	"notify-racing-close", "lower-stalled-resumed", "random-close", "random-close", "notify-flood", "notify-flood", "close-writer-parked-installed"}
+	"notify-racing-close", "lower-stalled-resumed", "random-close", "random-close", "notify-flood", "notify-flood", "close-writer-parked-installed",
+	"round-completes-as-merger-starts-waiting", "close-while-lower-keeps-failing"}
 
 func genC16(r *eng.Rng, idx int) *c16Case {
 	sc := c16Scenarios[idx%len(c16Scenarios)]
@@ -823,7 +937,7 @@ func init() {
 	ck := &run.Check{
 		Prop:  "C16",
 		Level: "exploration",
-		Rule: "scripted-then-randomised scenarios on the real code: (1) more writers than MaxPreMergerBatches against a merger parked by the director, then Close (blocked writers must get ErrClosed) or directed merger cycles (all proceed); (2) Close while the persister is inside a stalled LowerLevelUpdate (resumed only after Close signalled stop); (3) Close while the merger waits for the persister (MaxDirtyOps); (4) synchronous NotifyMerger racing and following Close; (5) lower level stalled, failing, then resumed under writers/readers, then bounded drain; (6) free-running writers/readers/notifiers with injected delays and Close at a random moment. Oracles: every API call returns - a call still pending while all moss goroutines are blocked and the set is stable over two stack dumps is a hang (violation); watchdog without quiescence is inconclusive; CurDirtyTopSegments and the number of accepted batches never exceed MaxPreMergerBatches; after Close, NewBatch/Snapshot/Get/ExecuteBatch(non-empty) return ErrClosed. distinct_nontrivial = distinct (scenario | outcome reached: bound reached, closed with blocked writers, ...) units.",
+		Rule: "scripted-then-randomised scenarios on the real code: (1) more writers than MaxPreMergerBatches against a merger parked by the director, then Close (blocked writers must get ErrClosed) or directed merger cycles (all proceed); (2) Close while the persister is inside a stalled LowerLevelUpdate (resumed only after Close signalled stop); (3) Close while the merger waits for the persister (MaxDirtyOps); (4) synchronous NotifyMerger racing and following Close; (5) lower level stalled, failing, then resumed under writers/readers, then bounded drain; (6) free-running writers/readers/notifiers with injected delays and Close at a random moment; (7) a flood of asynchronous notifications; (8) Close with a writer parked between installing its batch and waking the merger; (9) a whole persister round completing exactly between the merger's decision to wait for it and the wait (hook merger.waitOutgoing), then writers and a synchronous notification; (10) Close against a lower level that fails every update promptly: Close returns after a bounded number of further update calls (counted, not timed) and none follow. Oracles: every API call returns - a call still pending while all moss goroutines are blocked and the set is stable over two stack dumps is a hang (violation); watchdog without quiescence is inconclusive; CurDirtyTopSegments and the number of accepted batches never exceed MaxPreMergerBatches; after Close, NewBatch/Snapshot/Get/ExecuteBatch(non-empty) return ErrClosed. distinct_nontrivial = distinct (scenario | outcome reached: bound reached, closed with blocked writers, ...) units.",
 		MinUnits:    6,
 		Assumptions: []string{"liveness is restated as 'returns before quiescence', which a finite run decides", "blocking while the lower level is stalled by the harness is expected; verdicts are taken only with all gates open"},
 	}
